@@ -5,6 +5,7 @@ cd "$(dirname "$0")/.." || exit 2
 missed=0; total=0
 for p in selftest/C*/*.patch seeded/C*/patch.diff; do
   id=$(echo "$p" | sed 's|.*/\(C[0-9][0-9]\)[^/]*/.*|\1|')
+  if [ -f "$(dirname "$p")/out_of_fault_model.reason" ]; then echo "skipped $p  (out of the fault model: see $(dirname "$p")/out_of_fault_model.reason)"; continue; fi
   total=$((total+1))
   out=$(tools/mutant.sh "$p" "$id" 2>&1 | tail -1)
   case "$out" in
